@@ -287,7 +287,7 @@ Section WithLaws.
 
   Lemma nl_res_detect : forall body k,
     detect_kind (nl_bytes c LUnix) (nl_bytes c LDos) body = k -> RS.nl_res_of None (Some eb) body = Ok (nl_bytes c k).
-  Proof. intros body k H. unfold RS.nl_res_of. cbn [pv_truthy]. rewrite guess_detect, H. reflexivity. Qed.
+  Proof. intros body k H. unfold RS.nl_res_of. cbn [pv_given]. rewrite guess_detect, H. reflexivity. Qed.
 
   Lemma nl_res_cases : forall le_pv body k,
     (le_pv = Some (VStr (le_name k)) \/
